@@ -28,15 +28,15 @@ func (P) Rule() string {
 type exec struct{ c appsim.ChainExec }
 
 func (P) NewExec() hx.Executor        { return &exec{} }
-func (e *exec) Exec(op string) string { return e.c.Exec(op) }
+func (e *exec) Exec(op string) string { return e.c.ExecLedger(op) }
 
 func (P) Monitor(c *hx.CaseRun) []hx.Failure {
 	var fs []hx.Failure
 	type txinfo struct {
-		kind   string
-		from   int
-		nonce  int
-		w, in  int
+		kind  string
+		from  int
+		nonce int
+		w, in int
 	}
 	info := map[int]txinfo{}
 	committedTx := map[int]int{}
@@ -96,7 +96,7 @@ func (P) Monitor(c *hx.CaseRun) []hx.Failure {
 				}
 			}
 		}
-		if (toks[0] == "block" || toks[0] == "forceblock") && strings.HasPrefix(ans, "h=") {
+		if (toks[0] == "block" || toks[0] == "forceblock" || toks[0] == "sblk") && strings.HasPrefix(ans, "h=") {
 			txs, _ := hx.Arg(a, "txs")
 			for _, s := range hx.SplitComma(txs) {
 				id, err := strconv.Atoi(s)
@@ -137,6 +137,9 @@ func (P) Generate(g *hx.Gen) {
 	}
 	for k, nc := 0, g.Pick(40, 300); k < nc; k++ {
 		g.Case("contract transactions re-offered", c06.WithReceipts(ContractReuse(g)), true)
+	}
+	for k, ns := 0, g.Pick(2, 8); k < ns; k++ {
+		g.Case("real genesis: committed transactions re-offered between elections and awards", c06.WithReceipts(SysReuse(g)), true)
 	}
 	n := g.Pick(200, 1000)
 	for k := 0; k < n; k++ {
@@ -409,5 +412,29 @@ func ContractReuse(g *hx.Gen) []string {
 		g.Count("reuse:selfdestruct")
 	}
 	add("balx")
+	return ops
+}
+
+// SysReuse: a chain on the REAL genesis (c06.SysCase: system contracts, an election every block, awards at heights 10 and 20)
+// in which, after blocks, transactions committed earlier — transfers, account->confidential, spends of confidential outputs,
+// creations, contract calls — are offered to the mempool again; the next block must not hold them.
+func SysReuse(g *hx.Gen) []string {
+	base := c06.SysCase(g)
+	var ops []string
+	built := 0
+	for _, op := range base {
+		ops = append(ops, op)
+		switch hx.Tokens(op)[0] {
+		case "xfer", "xfertok", "ain", "uu", "ua", "create", "mcall", "calltok", "call":
+			built++
+		case "srecs":
+			if built > 0 && g.Rng.Intn(3) == 0 {
+				for i, n := 0, 1+g.Rng.Intn(2); i < n; i++ {
+					ops = append(ops, fmt.Sprintf("replay id=%d", g.Rng.Intn(built)))
+					g.Stats["reinclusion-attempts"]++
+				}
+			}
+		}
+	}
 	return ops
 }
